@@ -31,9 +31,10 @@ func runDelAuth(c *core.Ctx) {
 		return
 	}
 	c.CountFuncs(1)
-	for _, d := range mapDeletesOn(a.del, "recv.evs") {
+	for _, st := range cacheStmts(a.del, true) {
+		d := st.site
 		c.CountSites(1)
-		keyPath := an.PathOf(d.Call.Args[1])
+		keyPath := an.PathOf(st.del.Call.Args[1])
 		cand := "recv.evs[" + keyPath + "]"
 		ok := false
 		var why []string
@@ -98,7 +99,17 @@ func runRegKey(c *core.Ctx) {
 				return
 			}
 			p := an.PathOf(pk)
-			isEventPubkey := func(v ssa.Value) bool {
+			var isEventPubkey func(v ssa.Value) bool
+			isEventPubkey = func(v ssa.Value) bool {
+				// a field of a record that is assigned once in the whole module, from an event's Pubkey
+				// (`d := &deletion{author: event.Pubkey}` … `key{ref, d.author}`)
+				if u, ok := v.(*ssa.UnOp); ok {
+					if fa, ok := u.X.(*ssa.FieldAddr); ok && !isNamedRoot(fa.X.Type(), "Event") {
+						if st := an.FieldSingleStoreHook(fa.X.Type(), fa.Field); st != nil && an.FieldWriteOnceHook(fa.X.Type(), fa.Field) && st.Val != v {
+							return isEventPubkey(st.Val)
+						}
+					}
+				}
 				q := an.PathOf(v)
 				if !strings.HasSuffix(q, ".Pubkey") || strings.Contains(q, ".Tags") || strings.HasPrefix(q, "const:") {
 					return false
